@@ -2,7 +2,7 @@
     Statements only; proofs in Run/RunFacts.v, Match/AdjProofs.v, Match/CoreProofs.v. *)
 From Coq Require Import ZArith List Bool.
 From V Require Import Csv.CsvModel Data.DataModel Scan.ScanModel Scan.ScanSpec Run.RunLoop Run.RunFacts Run.RunProofs Run.RunFold
-  Match.Adjudicate Match.AdjProofs Match.Core Match.CoreProofs Match.CoreRun.
+  Match.Adjudicate Match.AdjProofs Match.Core Match.CoreProofs Match.CoreRun Match.CounterEqRun.
 Import ListNotations.
 Open Scope Z_scope.
 
@@ -48,6 +48,16 @@ Theorem C01_core_run_returns : forall q blanks AND sh (c : cfg) E cs (recs : lis
   core mx (st ustring mx r) = core mx (fst F) /\ returned ustring mx r = snd F.
 Proof. exact core_run_returns. Qed.
 Print Assumptions C01_core_run_returns.
+
+(** a value-producing function as the left side of '==': counter() yields its count AFTER the click, so the csvpath
+    [ counter.nm(1) == n ] returns exactly the n-th scanned line — any file, any scan (nothing when fewer lines are scanned) *)
+Theorem C01_counter_value_selects : forall q blanks nm n sh (cf : cfg) E (recs : list (line ustring)) x0,
+  wf sh -> parse false (ast_of sh) = Some (scanner cf) -> q_scan cf = false -> end_line cf = Some E ->
+  end_of ustring recs = Some E -> will_run cf = true -> cwnm cf = false -> lookup nm (vars x0) = None -> 1 <= n ->
+  returned ustring mx (run_from ustring mx (core_m q blanks true [CAgg (CounterEq nm 1 n)] (Some E)) cf (rs0 mx x0) None recs) =
+    match nth_error (filter (want ustring sh) (number 0 recs)) (Z.to_nat (n - 1)) with Some nl => [snd nl] | None => [] end.
+Proof. exact counter_value_selects. Qed.
+Print Assumptions C01_counter_value_selects.
 
 (** semantic half on CORE: the vote of a line is the conjunction (OR mode: disjunction) of the
     components' votes, each evaluated exactly once, left to right, on the state its predecessors left
